@@ -8,7 +8,7 @@
 EXTENDS DbHistory, IOUtils, TLCExt
 Traces == ndJsonDeserialize(IOEnv.TRACE_FILE)
 NT     == Len(Traces)
-TraceLabels == <<"", "EOL", "error", "x">>
+TraceLabels == <<"", " sp", "-special", ".v2", "EOL", "error", "x">>
 VARIABLES tid, l
 ASSUME \A t \in 1..NT : TLCSet(t, 0)
 TInit == Init /\ tid \in 1..NT /\ l = 1
@@ -27,7 +27,7 @@ Step ==
     \/ a.n = "Close" /\ Close(a.ok, a.via)
 Got == [post |-> Ev.post, err |-> Ev.err, res |-> Ev.res]
 \* fields the driver logged that the specification does not know (an escaped exception) can never match
-Want == [post |-> [k \in (DOMAIN Ev.post) \cap (DOMAIN Obs') |-> Obs'[k]], err |-> err', res |-> ResView']
+Want == [post |-> [k \in (DOMAIN Ev.post) \cap ObsKeys |-> ObsField(k)'], err |-> err', res |-> ResView']
 ObsMatch == \/ Want = Got
             \/ /\ Want # Got
                /\ PrintT(ToJson([mismatch |-> Traces[tid].id, at |-> l, expected |-> Want]))
